@@ -144,12 +144,11 @@ def evClear (a : ASys) (loc : String) : ASys :=
     reg := a.reg.filter (fun p => !(decide (p.1 = keyOf a.cfg loc p.1.2) && schedAt a loc p.1.2)),
     items := itemsNotOf a.items loc }
 
-/-- a location re-created from its stored documents (`NewLocation` → `State.Load`) -/
+/-- a location re-created from its stored documents (`NewLocation` → `State.Load`): both states hand every
+loaded document to the add hook with `loading = true` (`LinearState.Load` called no hook until the repair of finding
+C15-linear-load) -/
 def evLoad (a : ASys) (loc : String) (docs : List (String × AItem)) : ASys :=
-  let a0 := { a with items := itemsNotOf a.items loc }
-  match a.kind with
-  | .linear => docs.foldl (fun a d => { a with items := aSet a.items (loc, d.1) d.2 }) a0
-  | .indexed => docs.foldl (fun a d => evAdd a loc d.1 d.2 true) a0
+  docs.foldl (fun a d => evAdd a loc d.1 d.2 true) { a with items := itemsNotOf a.items loc }
 
 /-- the process restarts: an ephemeral cron has lost its jobs -/
 def evCronReset (a : ASys) : ASys := if a.cfg.persistent then a else { a with reg := [] }
